@@ -166,7 +166,8 @@ CLAIMS = {
               "backtrack alternative), yield_reactivated, Atomic.seen_before_yield_prune, Path.branch_limit. Progress "
               "and exit-outcome completeness are evaluated on await-loop families against the blocking-read reference; "
               "unsatisfiable loops must hit the branch limit; explorer-twin correspondence. Families include loops written "
-              "yield-first and writers that go on after the flag (both sides take a ticket)."),
+              "yield-first and writers that go on after the flag (both sides take a ticket), and one round of such a loop written "
+              "out and judged against RC11 (values read after the loop). Known: F29 (seen-before-yield prune across locations)."),
         ref="DESIGN.md §3 C18",
         technique="Lean 4 scheduler/yield laws + await-loop families vs blocking-read reference + twin correspondence"),
     "C19": dict(
